@@ -115,9 +115,14 @@ var sqlReserved = map[string]bool{"select": true, "from": true, "where": true, "
 	"over": true, "of": true, "inner": true, "outer": true, "cross": true, "natural": true, "use": true, "force": true, "ignore": true,
 	"straight_join": true, "x": false}
 
+func plainIdent(s string) bool { return sqlIdent(s) == s }
+
 func sqlPath(p []string) string {
 	if len(p) == 1 {
 		return sqlIdent(p[0])
+	}
+	if len(p) == 2 && plainIdent(p[0]) && plainIdent(p[1]) {
+		return p[0] + "." + p[1] // qualifier.name
 	}
 	return "`" + strings.Join(p, ".") + "`"
 }
@@ -464,6 +469,9 @@ func (it Item) name() string {
 	if it.E != nil && it.E.K == "col" {
 		if len(it.E.Path) == 1 {
 			return it.E.Path[0]
+		}
+		if len(it.E.Path) == 2 && plainIdent(it.E.Path[0]) && plainIdent(it.E.Path[1]) {
+			return it.E.Path[1] // rendered as qualifier.name: the column's own name
 		}
 		return strings.Join(it.E.Path, ".") // rendered as one back-quoted identifier
 	}
